@@ -546,7 +546,8 @@ fn check_nuts(c: &NutsCase, cov: &mut Cov) -> CheckResult {
     let dim = c.spec.dim();
     let mut rng = Prng::new(c.data_seed);
     let inits: Vec<Vec<f64>> = (0..c.chains).map(|_| c.spec.interior_point(&mut rng)).collect();
-    let target = HTarget::new(c.spec.clone());
+    // (evaluation budget: warm-up can collapse the step size and the library has no depth cap)
+    let target = HTarget::with_budget(c.spec.clone(), 2_000_000);
     let n1 = c.c1;
     let n2 = c.c1 + c.c2;
     // single chain with a trace: row k = state after n_discard + k transitions
@@ -555,6 +556,10 @@ fn check_nuts(c: &NutsCase, cov: &mut Cov) -> CheckResult {
     let r = no_panic(|| ch.run(n2, c.d));
     let trace = verif::nuts_trace_take();
     let out = r.map_err(|m| Fail::new("run-panic", format!("NUTSChain::run({n2},{}) panicked: {m}", c.d)))?;
+    if target.exhausted() {
+        cov.class("evaluation-budget-exhausted-skip");
+        return Ok(());
+    }
     ensure!(out.dims() == [n2, dim], "run-shape", "NUTSChain::run({n2},{}) shape {:?}", c.d, out.dims());
     let v = to_vec(&out);
     ensure!(
@@ -586,6 +591,10 @@ fn check_nuts(c: &NutsCase, cov: &mut Cov) -> CheckResult {
         let mut ch2 = NUTSChain::<f64, B, HTarget>::new(target.clone(), inits[0].clone(), 0.8).set_seed(c.seed.wrapping_add(1));
         let short = to_vec(&ch2.run(n1, c.d));
         for i in 0..n1 * dim {
+            if target.exhausted() {
+                cov.class("evaluation-budget-exhausted-skip");
+                return Ok(());
+            }
             ensure!(short[i].to_bits() == v[i].to_bits(), "run-prefix", "NUTSChain::run({n1},{}) is not a prefix of run({n2},{}) for the same seed", c.d, c.d);
         }
         cov.class("prefix-checked");
@@ -600,6 +609,10 @@ fn check_nuts(c: &NutsCase, cov: &mut Cov) -> CheckResult {
         let mut single = NUTSChain::<f64, B, HTarget>::new(target.clone(), inits[i].clone(), 0.8).set_seed(c.seed.wrapping_add(i as u64).wrapping_add(1));
         let sv = to_vec(&single.run(n2, c.d));
         for k in 0..n2 * dim {
+            if target.exhausted() {
+                cov.class("evaluation-budget-exhausted-skip");
+                return Ok(());
+            }
             ensure!(
                 sv[k].to_bits() == av[i * n2 * dim + k].to_bits(),
                 "run-multi-vs-single",
@@ -607,6 +620,10 @@ fn check_nuts(c: &NutsCase, cov: &mut Cov) -> CheckResult {
                 c.chains
             );
         }
+    }
+    if target.exhausted() {
+        cov.class("evaluation-budget-exhausted-skip");
+        return Ok(());
     }
     if c.narrow_t {
         // T = f32 on NdArray<f64>: the runner must return exactly what its chains return
